@@ -95,6 +95,18 @@ SHIPPED = ['default_a8w8_recipe.json', 'default_a16w8_recipe.json',
 # skeleton family
 # ---------------------------------------------------------------------------
 def _single(kind):
+  if kind.endswith('_2INPUTS'):
+    # the optional bias operand is left out of the input list altogether
+    # (legal in the schema), instead of being marked absent with -1
+    base = {'FC_2INPUTS': 'FC_NOBIAS', 'CONV_2D_2INPUTS': 'CONV_2D_NOBIAS',
+            'DEPTHWISE_CONV_2D_2INPUTS': 'DEPTHWISE_CONV_2D_NOBIAS'}[kind]
+    m = flatbuffer_utils.read_model_from_bytearray(bytearray(_single(base)))
+    for op in m.subgraphs[0].operators:
+      ins = [int(i) for i in op.inputs]
+      while ins and ins[-1] == -1:
+        ins.pop()
+      op.inputs = ins
+    return bytes(flatbuffer_utils.convert_object_to_bytearray(m))
   mb = skeletons.ModelBuilder()
   g = mb.subgraph()
   if kind in ('CONV_2D', 'DEPTHWISE_CONV_2D', 'TRANSPOSE_CONV',
@@ -196,7 +208,8 @@ SINGLE_KINDS = ['FC', 'FC_NOBIAS', 'CONV_2D', 'DEPTHWISE_CONV_2D',
                 'AVERAGE_POOL_2D_RELU6', 'FC_RELU', 'ADD_RELU6', 'CONV_2D_NOBIAS',
                 'DEPTHWISE_CONV_2D_NOBIAS', 'TRANSPOSE_CONV_NOBIAS',
                 'TRANSPOSE_CONV_EMPTY_BIAS', 'CONCAT_CONST', 'CONCAT_CONST2',
-                'FC_DEAD_CHANNEL', 'FC_RUNTIME_WEIGHTS']
+                'FC_DEAD_CHANNEL', 'FC_RUNTIME_WEIGHTS', 'FC_2INPUTS',
+                'CONV_2D_2INPUTS', 'DEPTHWISE_CONV_2D_2INPUTS']
 
 
 def _topologies():
@@ -266,6 +279,19 @@ def _topologies():
     g.output(g.fc(x, 'y'))
     g.output(g.const('anchors', np.array([[0.5, -1.5, 2.0]], np.float32)))
   add('constant_is_output', const_output)
+
+  def three_concats(mb, g):
+    # one quantized tensor feeding three CONCATENATIONs of different range
+    # (dense-block skip connections): three re-quantize ops on one tensor
+    x = g.input('x', (1, 2))
+    a = g.input('a', (1, 2))
+    b = g.input('b', (1, 2))
+    c = g.input('c', (1, 2))
+    t = g.unary('TANH', x, 't')
+    g.output(g.concat([t, a], 'y1'))
+    g.output(g.concat([t, b], 'y2'))
+    g.output(g.concat([t, c], 'y3'))
+  add('tensor_feeds_three_concats', three_concats)
 
   def weight_is_output(mb, g):
     # the weights of a quantized op are also returned from the model
@@ -687,6 +713,20 @@ def recipe_family(model_bytes, tier, shipped_only=False):
                                       rule(rx, '*', 'NOQ')]
         fam[f'mixed:{tag}:SRQ8+WO'] = [rule('.*', '*', 'WO'),
                                        rule(rx, '*', 'SRQ8')]
+  wops = [(si, oi, scope) for si, oi, scope, name in scopes
+          if name in ('FULLY_CONNECTED', 'CONV_2D', 'BATCH_MATMUL',
+                      'EMBEDDING_LOOKUP')]
+  if len(wops) >= 2:
+    # two weight ops in different quantized modes (they may read one tensor)
+    r0 = '^' + re.escape(wops[0][2]) + '$'
+    r1 = '^' + re.escape(wops[1][2]) + '$'
+    for m0, m1 in (('WO', 'WO4'), ('DRQ', 'WO4'), ('FP16', 'WO'),
+                   ('WO', 'DRQ')):
+      fam[f'pair:{m0}+{m1}'] = [rule(r0, '*', m0), rule(r1, '*', m1)]
+  # an earlier static-range rule, then a catch-all the activation-only ops
+  # cannot take (they keep the earlier rule)
+  fam['srq8_then_catchall_WO'] = [rule('(.*)', '*', 'SRQ8'),
+                                  rule('.*', '*', 'WO')]
   if len(scopes) > 1:
     fam['srq8_ops_only_no_io'] = [rule('^(?!$).*', '*', 'SRQ8')]
     # operator-type rules (every op of one type, nothing else)
@@ -760,6 +800,14 @@ def run_pipeline(e, model_bytes, recipe, backend='UF', qsvs=None,
         for si, oi, scope, name in op_scopes(out.input_model):
           if name is not None:
             rm.get_quantization_configs(qtyping.TFLOperationName(name), scope)
+        # ... and quantize() was called with that recipe on this object
+        try:
+          past_qsvs = concrete_qsvs(out.input_model, None) \
+              if rm.need_calibration() else None
+          with np.errstate(all='ignore'):
+            q.quantize(past_qsvs)
+        except Exception:  # pylint: disable=broad-except
+          pass
       for r in copy.deepcopy(recipe):
         q.update_quantization_recipe(
             r['regex'], r['operation'],
